@@ -277,15 +277,17 @@ def corrupt_snapshot(events):
 
 
 def corrupt_time(events):
+    """The call of an operation that later times out claims a timeout one tick longer: its Timeout return then comes
+    before the model's deadline."""
     for i, e in enumerate(events):
         if e.get("ev") == "Ret" and e.get("r") == "timeout":
-            # drop the Tick that brought the clock to the deadline
             for j in range(i - 1, -1, -1):
-                if events[j].get("ev") == "Tick":
-                    del events[j]
-                    return events
-                if events[j].get("ev") == "Reset":
+                c = events[j]
+                if c.get("ev") == "Reset":
                     break
+                if c.get("ev") == "Call" and c.get("o") == e.get("o") and c.get("t", 0) > 0:
+                    c["t"] += 1
+                    return events
     return None
 
 
